@@ -358,10 +358,11 @@ func (c *minecraftConn) bufferPacket(packet proto.Packet, canQueue bool) (err er
 		}
 	}()
 	if canQueue {
+		// Queue while holding c.mu: the queue is released and cleared under
+		// c.mu and has no lock of its own.
 		c.mu.Lock()
-		playPacketQueue := c.playPacketQueue
+		queued, queueErr := c.playPacketQueue.Queue(packet)
 		c.mu.Unlock()
-		queued, queueErr := playPacketQueue.Queue(packet)
 		if queueErr != nil {
 			return queueErr
 		}
